@@ -23,6 +23,9 @@ type fnInfo struct {
 }
 
 type Engine struct {
+	staleContracts []staleContract
+	callNames map[string]bool // names declared as functions or used in call position anywhere in the repo packages
+	axiomsUsed sync.Map // axiom name -> true: included in at least one query of this run
 	oncallHit sync.Map // *Clause -> true: oncall clauses that matched at least one call site
 	fset      *token.FileSet
 	pkgs      []*packages.Package
@@ -75,16 +78,30 @@ func LoadEngine(repoDir, verifDir string) (*Engine, error) {
 		return nil, fmt.Errorf("root package not loaded")
 	}
 	packages.Visit(pkgs, nil, func(p *packages.Package) { e.allPkgs[p.PkgPath] = p })
-	// index function declarations of the repo packages
+	// index function declarations of the repo packages; remember every name that is declared as a
+	// function or appears in call position (a contract clause naming a callee outside this set is stale)
+	e.callNames = map[string]bool{}
 	for _, p := range pkgs {
 		for _, f := range p.Syntax {
 			for _, d := range f.Decls {
 				if fd, ok := d.(*ast.FuncDecl); ok {
+					e.callNames[fd.Name.Name] = true
 					if obj, ok := p.TypesInfo.Defs[fd.Name].(*types.Func); ok {
 						e.funcs[obj] = &fnInfo{fd, p}
 					}
 				}
 			}
+			ast.Inspect(f, func(n ast.Node) bool {
+				if c, ok := n.(*ast.CallExpr); ok {
+					switch fx := ast.Unparen(c.Fun).(type) {
+					case *ast.Ident:
+						e.callNames[fx.Name] = true
+					case *ast.SelectorExpr:
+						e.callNames[fx.Sel.Name] = true
+					}
+				}
+				return true
+			})
 		}
 	}
 	// contract files: every verif_contracts*.go in the two package dirs, plus stubs
@@ -242,6 +259,12 @@ func (e *Engine) resolve() error {
 		}
 		fn, err := e.findFunc(fc)
 		if err != nil {
+			if fc.File != "" && !strings.HasSuffix(fc.File, ".spec") {
+				// a contract on a repository function that no longer exists under that name (renamed or
+				// removed): the contract is stale; its obligations are undecided for the properties it serves
+				e.staleContracts = append(e.staleContracts, staleContract{name: contractUnitName(fc), props: fc.Props, msg: fmt.Sprintf("%s:%d: %v", shortFile(fc.File), fc.Line, err)})
+				continue
+			}
 			return fmt.Errorf("%s:%d: %v", fc.File, fc.Line, err)
 		}
 		if _, dup := e.contracts[fn]; dup {
@@ -386,4 +409,62 @@ func (e *Engine) allRepoPkgs() map[string]bool {
 		m[p.PkgPath] = true
 	}
 	return m
+}
+
+type staleContract struct {
+	name  string
+	props []string
+	msg   string
+}
+
+// contractUnitName is the unit name ("T.M" or "F", "main.F" outside the root package is not
+// reconstructed: prefix match on the bare name is used) of a contract header.
+func contractUnitName(fc *FuncContract) string {
+	if fc.RecvType != "" {
+		return strings.TrimPrefix(fc.RecvType, "*") + "." + fc.Name
+	}
+	return fc.Name
+}
+
+// staleCallee returns the first callee name mentioned by an anchor or oncall clause of the spec that
+// is no function name in the repository any more (renamed or removed callee).
+func (e *Engine) staleCallee(us *UnitSpec) string {
+	if us == nil || e.callNames == nil {
+		return ""
+	}
+	check := func(name string) string {
+		if i := strings.LastIndex(name, "#"); i > 0 {
+			name = name[:i]
+		}
+		if i := strings.LastIndex(name, "."); i >= 0 {
+			name = name[i+1:]
+		}
+		if name == "" || name == "*" || e.callNames[name] {
+			return ""
+		}
+		return name
+	}
+	var cs []*Clause
+	cs = append(cs, us.Ghost...)
+	cs = append(cs, us.Asserts...)
+	for _, c := range cs {
+		for _, pre := range []string{"after:", "before:", "call:"} {
+			if strings.HasPrefix(c.Arg, pre) {
+				if n := check(strings.TrimPrefix(c.Arg, pre)); n != "" {
+					return n
+				}
+			}
+		}
+	}
+	for _, c := range us.OnCall {
+		if n := check(c.Arg); n != "" {
+			return n
+		}
+	}
+	for _, sub := range us.Lits {
+		if n := e.staleCallee(sub); n != "" {
+			return n
+		}
+	}
+	return ""
 }
